@@ -126,6 +126,7 @@ class Tok:
         self.rng = rng
         self.n = 100
         self.flags: set = set()
+        self.edge_ascii = False  # header / cookie values: printable ASCII without separators only
         self.edge = 0.0  # probability of an edge-case value (empty / falsy-looking / non-ASCII / long) for a plain string, 0 / huge for integers
 
     def take_flags(self) -> list:
@@ -177,7 +178,7 @@ def _typed_scalar(t: str, fmt, tok: Tok):
         if fmt == "uuid":
             return tok.uuid()
         if tok.edge and tok.rng.random() < tok.edge:
-            return tok.rng.choice(Tok.EDGE_STRINGS)
+            return tok.rng.choice(["", "0", "false", "null", "-1", "None", "UNSET"] if tok.edge_ascii else Tok.EDGE_STRINGS)
         return tok.string()
     if t == "integer":
         if tok.edge and tok.rng.random() < tok.edge:
@@ -1383,6 +1384,32 @@ def interplay_docs() -> list[tuple[str, dict]]:
         mk(f"tag_{tag}", schemas={"M": {"type": "object", "properties": {"a": {"type": "string"}}}},
            paths={"/t": {"get": {"operationId": "get_t", "tags": [tag], "responses": {"200": {"description": "ok", "content": {"application/json": {"schema": R("M")}}}}}},
                   "/u": {"get": {"operationId": tag, "tags": ["ops"], "responses": ok}}, "/v": {"get": {"operationId": tag, "tags": [tag], "responses": ok}}})
+    return out
+
+
+def shared_enum_param_docs() -> list[tuple[str, dict]]:
+    """An enum listing null, declared once and visited for several operations (path-item level, components/parameters,
+    a component schema used by several parameters and properties): every use is nullable, not only the first."""
+    out = []
+    ok = {"200": {"description": "ok"}}
+    for vals in (["asc", "desc"], [1, 2, 3], ["only"]):
+        for version in ("3.0.3", "3.1.0", "3.0.3:plain", "3.1.0:plain"):
+            t = "string" if isinstance(vals[0], str) else "integer"
+            sch = {"type": [t, "null"], "enum": vals + [None]} if version.startswith("3.1") else {"type": t, "enum": vals + [None], "nullable": True}
+            if version.endswith(":plain"):
+                sch = {"type": t, "enum": vals + [None]}  # null only listed among the values: no nullable flag, no null type beside it
+            d = base_doc(version.split(":")[0], "Shared Enum Parameters")
+            d["components"]["parameters"] = {"Order": {"name": "order", "in": "query", "schema": clone(sch)}, "Mode": {"name": "mode", "in": "query", "schema": clone(sch)}}
+            d["components"]["schemas"] = {"Dir": clone(sch), "Holder": {"type": "object", "properties": {"a": {"$ref": "#/components/schemas/Dir"}, "b": {"$ref": "#/components/schemas/Dir"}, "c": clone(sch)}, "required": ["b"]}}
+            PO, PM = {"$ref": "#/components/parameters/Order"}, {"$ref": "#/components/parameters/Mode"}
+            PD = {"name": "dir", "in": "query", "schema": {"$ref": "#/components/schemas/Dir"}}
+            d["paths"] = {
+                "/a": {"get": {"operationId": "a_get", "parameters": [PO], "responses": ok}, "post": {"operationId": "a_post", "parameters": [PO, PM, clone(PD)], "responses": ok}},
+                "/b": {"parameters": [{"name": "sort", "in": "query", "schema": clone(sch)}], "get": {"operationId": "b_get", "responses": ok}, "put": {"operationId": "b_put", "parameters": [PM], "responses": ok},
+                       "delete": {"operationId": "b_delete", "parameters": [clone(PD)], "responses": ok}},
+                "/c": {"get": {"operationId": "c_get", "parameters": [PM, PO, dict(clone(PD), required=True)], "responses": {"200": {"description": "ok", "content": {"application/json": {"schema": {"$ref": "#/components/schemas/Holder"}}}}}}},
+            }
+            out.append((f"shared_enum_params:{t}{len(vals)}:{version}", d))
     return out
 
 
